@@ -856,7 +856,8 @@ Definition msg_keys (m : msg) : list N :=
   | MSpawn u | MDelete u => [u]
   | MComp u _ v => u :: match v with VMapper joints _ => joints | _ => [] end
   | MParented c p => [c; p]
-  | MMaterial a _ | MAsset _ a _ => [a]
+  | MMaterial a _ => [1099511627776 + akey KMaterial a]
+  | MAsset c a _ => [1099511627776 + akey (KClass c) a]
   | MPromote | MNewHost _ | MReqInit | MFinInit => []
   end.
 Definition control_msg (m : msg) : bool :=
